@@ -469,7 +469,14 @@ func TestC17(t *testing.T) {
 		nNames := 3 + r.IntN(6)
 		names := []string{nV1, nV2, nV3}
 		for i := 0; i < nNames; i++ {
-			names = append(names, fmt.Sprintf("raw.%c", 'A'+i))
+			// every third world spells its raw names the way Go spells generic, pointer and slice types
+			// (brackets, stars) or with other characters that mean something to a pattern matcher
+			switch {
+			case c%3 == 1:
+				names = append(names, []string{"raw.Reading[int]", "*raw.Note", "[]raw.Item", "raw.invoice[v1]", "raw.what?", "raw.a*b", "raw.Page[raw.Item]", `raw.back\slash`}[i%8])
+			default:
+				names = append(names, fmt.Sprintf("raw.%c", 'A'+i))
+			}
 		}
 		var viaOpt [][2]string
 		if c%2 == 1 {
